@@ -148,7 +148,7 @@ def build_stock(kind, dims, lifetime=None, inflow=None, outflow=None, stock=None
         return None if v is None else StockArray(dims=dims, values=v if keep_layout else v.copy(), name=nm)
 
     if kind == "flow":
-        return SimpleFlowDrivenStock(dims=dims, inflow=sa(inflow, "in"), outflow=sa(outflow, "out"), name=name)
+        return SimpleFlowDrivenStock(dims=dims, inflow=sa(inflow, "in"), outflow=sa(outflow, "out"), **({"stock": sa(stock, "st")} if stock is not None else {}), name=name)
     if kind == "idsm":
         return InflowDrivenDSM(dims=dims, inflow=sa(inflow, "in"), **({"stock": sa(stock, "st")} if stock is not None else {}),
                                **({"outflow": sa(outflow, "out")} if outflow is not None else {}), lifetime_model=lifetime, name=name)
